@@ -195,6 +195,36 @@ def t_nonl(doc, r):
     doc["tags"].append("no-final-newline")
 
 
+EXOTIC = ["\x0c", "\x0b", "\x1c", "\x1d", "\x1e", "\x85", "\u2028", "\u2029"]   # what str.splitlines() also splits at
+
+
+def t_exotic(doc, r, strings=True):
+    """characters that str.splitlines() treats as line boundaries but the parsers (and the property) do not: inside a
+    comment, inside a string literal, and a form feed as a page break; the number of lines (split at LF) is unchanged"""
+    lang = doc["lang"]
+    if lang not in CM:
+        return
+    new = []
+    for _ in range(r.choice([1, 1, 2])):
+        ch = r.choice(EXOTIC)
+        kind = r.choice(["comment", "comment", "string", "pagebreak"] if strings else ["comment", "comment", "pagebreak"])
+        if kind == "comment":
+            if lang in ("ts", "js") and ch in ("\u2028", "\u2029"):
+                new.append(f"/* section{ch}break {len(new)} */")      # U+2028/9 END a `//` comment in JavaScript
+            else:
+                new.append(f"{CM[lang]} section{ch}break {len(new)}")
+        elif kind == "pagebreak":
+            new.append("\x0c")
+        elif lang == "py":
+            new.append(f'tv_text_{len(new)} = "a{ch}b"')
+        elif lang == "rs":
+            new.append(f'const TV_TEXT_{len(new)}: &str = "a{ch}b";')
+        else:
+            new.append(f'const tvText{len(new)} = "a{ch}b";')
+    insert_lines(doc, 0, new)
+    doc["tags"].append("exotic-line-chars")
+
+
 def layout(doc, r, wrap_ok=True, light=False):
     """a random composition of position-tracking layout changes"""
     if r.random() < 0.5:
@@ -207,6 +237,8 @@ def layout(doc, r, wrap_ok=True, light=False):
         t_wrap(doc, r)
     if r.random() < 0.5:
         t_vshift(doc, r)
+    if r.random() < 0.3:
+        t_exotic(doc, r)
     x = r.random()
     if x < 0.2:
         t_crlf(doc, r)
@@ -422,6 +454,8 @@ def s_rust(seed, i):
         walk(it)
     doc = mk_doc("rs", "src/case.rs", lines, cons, "rust")
     # only whole-file layouts: statements are not tracked line by line
+    if r.random() < 0.4:
+        t_exotic(doc, r)
     if r.random() < 0.5:
         t_vshift(doc, r)
     if r.random() < 0.3:
@@ -493,6 +527,8 @@ def s_rustchain(seed, i):
                 chain_stmt(4, False)
         lines.append("}")
     doc = mk_doc("rs", "src/chains.rs", lines, cons, "rust")
+    if r.random() < 0.45:
+        t_exotic(doc, r)
     if r.random() < 0.5:
         t_vshift(doc, r)
     if r.random() < 0.3:
@@ -535,6 +571,8 @@ def s_dry(seed, i):
         if voff:
             insert_lines(d, 0, [f"{CM[f['lang']]} pad {j}" if j % 2 == 0 else "" for j in range(voff)])
             d["tags"].append("vshift")
+        if r.random() < 0.25:
+            t_exotic(d, r, strings=False)
         docs.append(d)
     x = r.random()
     for d in docs:
@@ -543,6 +581,103 @@ def s_dry(seed, i):
         elif x < 0.4:
             t_nonl(d, r)
     return {"id": f"dry{i}", "stream": "dry", "docs": docs, "config": c03.dry_config({"W": proj["W"], "k": proj["k"]})}
+
+
+CONST_POOL = ["MAX_RETRY_COUNT", "RETRY_BACKOFF_MS", "REQUEST_TIMEOUT_MS", "DEFAULT_PAGE_SIZE", "CACHE_TTL_SECONDS", "LISTEN_PORT",
+              "IDLE_TIMEOUT_SECONDS", "MAX_POOL_CONNECTIONS", "BUFFER_BYTES", "API_VERSION_TAG"]
+
+
+def _const_file(r, lang, name, shared, own, pad=0):
+    """a module declaring constants: TS/JS in multi-line, multi-declarator `const A = 1,` / `  B = 2;` statements (with and
+    without `export`, blank lines between declarators), Python with plain, annotated and parenthesised multi-line assignments"""
+    names = list(shared) + list(own)
+    r.shuffle(names)
+    lines, cons = [f"{CM[lang]} settings of {name}"] + [""] * pad, []
+    b = "dry.constant.py" if lang == "py" else "dry.constant.ts"
+    val = {n: (abs(hash(n)) % 9000 + 10) if False else 10 + 7 * CONST_POOL.index(n) if n in CONST_POOL else 1 for n in names}
+    if lang == "py":
+        for n in names:
+            form = r.choice(["plain", "plain", "ann", "paren"])
+            if form == "plain":
+                lines.append(f"{n} = {val[n]}")
+                cons.append(con(b, n, len(lines) - 1, 0))
+            elif form == "ann":
+                lines.append(f"{n}: int = {val[n]}")
+                cons.append(con(b, n, len(lines) - 1, 0))
+            else:
+                lines.extend([f"{n} = (", f"    {val[n]}", ")"])
+                cons.append(con(b, n, len(lines) - 3, 0))
+            if r.random() < 0.3:
+                lines.append("")
+        lines.extend(["", "def describe():", "    return 0"])
+    else:
+        i = 0
+        while i < len(names):
+            k = r.choice([1, 2, 3, 3])
+            grp = names[i:i + k]
+            i += k
+            head = r.choice(["const ", "export const "])
+            for j, n in enumerate(grp):
+                last = j == len(grp) - 1
+                if j == 0:
+                    lines.append(f"{head}{n} = {val[n]}" + (";" if last else ","))
+                    cons.append(con(b, n, len(lines) - 1, len(head)))
+                else:
+                    if r.random() < 0.3:
+                        lines.append("")
+                    lines.append(f"  {n} = {val[n]}" + (";" if last else ","))
+                    cons.append(con(b, n, len(lines) - 1, 2))
+            if r.random() < 0.4:
+                lines.append("")
+        lines.extend(["", "function describe() {", "  return 0;", "}"])
+    for c in cons:
+        c["pad_ok"] = False
+    return lines, cons
+
+
+def s_dryconst(seed, i):
+    """duplicate-CONSTANT findings of the DRY rule: the same constants declared in two or three modules"""
+    r = rng_for(seed, PROP, "dryconst", i)
+    lang = r.choice(["py", "ts", "ts", "js"])
+    shared = r.sample(CONST_POOL, r.choice([1, 2, 3]))
+    rest = [n for n in CONST_POOL if n not in shared]
+    docs = []
+    for j in range(r.choice([2, 2, 3])):
+        own = r.sample(rest, r.choice([0, 1, 2]))
+        lines, cons = _const_file(r, lang, f"mod{j}", shared, own, pad=r.choice([0, 0, 2, 5]))
+        d = mk_doc(lang, f"app/mod{j}_{'xyz'[j]}" + EXT[lang], lines, cons, "dryconst")
+        if r.random() < 0.25:
+            t_exotic(d, r, strings=False)
+        if r.random() < 0.2:
+            t_crlf(d, r)
+        if r.random() < 0.2:
+            t_nonl(d, r)
+        docs.append(d)
+    return {"id": f"dryconst{i}", "stream": "dryconst", "docs": docs, "config": {"dry": {"enabled": True, "min_duplicate_lines": 4}}}
+
+
+def s_history(seed, i):
+    """a long-lived Linter (src.api.Linter) lints a project, files are shortened / deleted, it lints again: every violation of the
+    LAST run must name a file of that run and a line of that file as it is now (cross-file rules: DRY code and constants)"""
+    r = rng_for(seed, PROP, "history", i)
+    lang = r.choice(["py", "py", "ts"])
+    shared = r.sample(CONST_POOL, r.choice([2, 3]))
+    block = (["def shared_work(a, b):", "    total = a + b", "    total = total * 2", "    total = total - 1", "    total = total + b", "    return total"] if lang == "py"
+             else ["function sharedWork(a, b) {", "  let total = a + b;", "  total = total * 2;", "  total = total - 1;", "  total = total + b;", "  return total;", "}"])
+    v1, v2 = [], []
+    for j in range(3):
+        name = f"settings/part{j}_{'pqr'[j]}" + EXT[lang]
+        lines, cons = _const_file(r, lang, f"part{j}", shared, [], pad=r.choice([6, 9, 12]) if j == 0 else r.choice([0, 1]))
+        d1 = mk_doc(lang, name, lines + [""] + block, [], "history")
+        v1.append(d1)
+        if j == 0:      # rewritten much shorter: its constants move up, the duplicated block disappears
+            l2, c2 = _const_file(r, lang, f"part{j}", shared[:1], [], pad=0)
+            v2.append(mk_doc(lang, name, l2, c2, "history"))
+        elif j == 1:
+            d2 = mk_doc(lang, name, lines + [""] + block, cons, "history")
+            v2.append(d2)
+        # j == 2: deleted before the second run
+    return {"id": f"history{i}", "stream": "history", "docs": v2, "steps": [v1, v2], "config": {"dry": {"enabled": True, "min_duplicate_lines": 4}}}
 
 
 def _dry_norm(line: str) -> str:
@@ -631,6 +766,8 @@ def s_print(seed, i):
     doc = mk_doc(lang, "src/case" + EXT[lang], lines, cons, "print")
     for c in cons:
         c["pad_ok"] = False
+    if r.random() < 0.35:
+        t_exotic(doc, r)
     if r.random() < 0.5:
         t_vshift(doc, r)
     if r.random() < 0.3:
@@ -714,6 +851,8 @@ def docs_cases(seed, variants):
                         t_crlf(d, r)
                     elif step == "nonl":
                         t_nonl(d, r)
+                    elif step == "exotic":
+                        t_exotic(d, r, strings=(ex["linter"] not in ("file-header", "lazy-ignores", "dry", "stringly-typed")))
                 if d is None:
                     docs = None
                     break
@@ -727,6 +866,8 @@ def docs_cases(seed, variants):
 # ====================================================================== running the implementation
 def run_case(case):
     """lint every file of the case (in-process; case['via'] == 'cli' additionally through the CLI with json and sarif)"""
+    if case.get("steps"):
+        return run_history(case)
     with scratch_dir("tv-c12-") as d:
         paths, texts = [], {}
         for doc in case["docs"]:
@@ -754,6 +895,46 @@ def run_case(case):
         out["failures"] = drain_failures()
         if case.get("via") == "cli":
             out["cli"] = _run_cli_views(case, d, paths)
+        return out
+
+
+def run_history(case):
+    """one Linter object, several runs over a changing project; the violations and file contents of the LAST run are returned"""
+    import yaml
+    from harness.common import ensure_repo_on_path, install_failure_tap
+    ensure_repo_on_path()
+    install_failure_tap()
+    from src.api import Linter
+    with scratch_dir("tv-c12h-") as d:
+        (d / ".thailint.yaml").write_text(yaml.safe_dump(case["config"]))
+        out = {"v": [], "failures": [], "texts": {}}
+        try:
+            linter = Linter(project_root=str(d))
+            vs = []
+            for step in case["steps"]:
+                keep = set()
+                for doc in step:
+                    p = d / doc["name"]
+                    p.parent.mkdir(parents=True, exist_ok=True)
+                    p.write_bytes(doc_text(doc).encode("utf-8"))
+                    keep.add(p)
+                for p in list(d.rglob("*")):
+                    if p.is_file() and p.name != ".thailint.yaml" and p not in keep:
+                        p.unlink()
+                out["texts"] = {doc["name"]: doc_text(doc) for doc in step}
+                target = d / Path(step[0]["name"]).parts[0]
+                vs = linter.lint(str(target))
+        except Exception as e:  # noqa: BLE001
+            out["error"] = f"{type(e).__name__}: {e}"
+            out["failures"] = drain_failures()
+            return out
+        roots = sorted({str(d) + "/", str(d.resolve()) + "/"}, key=len, reverse=True)
+        for v in vs:
+            msg = v.message
+            for root in roots:
+                msg = msg.replace(root, "")
+            out["v"].append([v.rule_id, _rel(v.file_path, d), v.line, v.column, msg])
+        out["failures"] = drain_failures()
         return out
 
 
@@ -890,7 +1071,10 @@ def canon(rule: str, msg: str, fname: str, line_text: str):
             return "dry", "", [], []
         mm = re.match(r"^Duplicate constant '(.*?)' defined in ", msg, re.S)
         if mm:
-            return "dry.constant", mm.group(1), [mm.group(1)], []
+            return "dry.constant." + ("py" if lang == "py" else "ts"), mm.group(1), [mm.group(1)], []
+        mm = re.match(r"^Similar constants found: (.*?) in \d+ files\. ", msg, re.S)
+        if mm:      # the constant of THIS location is one of the quoted names
+            return "dry.constant.similar", "", [], re.findall(r"'([^']+)'", mm.group(1))
     elif rule == "improper-logging.print-statement":
         if lang == "py" and m("print.py"):
             return "print.py", "", ["print"], []
@@ -1034,6 +1218,13 @@ def classify_unmodelled(rep, lines, cons=()):
     violations, misread literals): a precise key or None"""
     rule, line, col = rep["rule"], rep["line"], rep["col"]
     n = len(lines)
+    if rep.get("sl_differs") and rep.get("sl_text") is not None and (rep["quoted"] or rep["hdrs"]) and not rep["recorded"]:
+        # the file holds characters str.splitlines() splits at (form feed, VT, FS/GS/RS, NEL, U+2028/9) and the violation is
+        # numbered in THAT line list: everything quoted stands on line `line` of text.splitlines(), not of the file
+        t = sanitize(rep["sl_text"])
+        if all(sanitize(q) in t for q in rep["quoted"]) and (not rep["hdrs"] or any(sanitize(h) in t for h in rep["hdrs"])) \
+                and col <= len(rep["sl_text"].encode("utf-8")):
+            return "splitlines_numbering[" + rule.split(".")[0] + "]"
     if rule in ("file-placement", "file-header.validation") and n == 0 and line == 1 and col in (0, 1):
         return "file_level_empty_file"
     if not (1 <= line <= n):
@@ -1068,7 +1259,9 @@ def run(tier: str, seed: int, replay: str | None = None) -> int:
     chk = Check(PROP, tier, seed)
     chk.rule = ("generated programs of every modelled linter (generators of C01/C02/C03/C16/C17 and a print / console generator) laid out with "
                 "random vertical and horizontal offsets, blank / comment lines in front of constructs, decorators / attributes, multi-line headers, "
-                "CRLF, no final newline; every documented example of every CLI linter under position-only layouts (as is, shifted down, wrapped "
+                "CRLF, no final newline, characters str.splitlines() splits at (FF, VT, FS/GS/RS, NEL, U+2028/9) in comments, string literals and as page breaks; "
+                "several Rust files in one run; duplicate-constant projects (Python, TS/JS multi-line multi-declarator const statements); histories with one "
+                "long-lived Linter (lint, shorten / delete files, lint again: the last run is judged); every documented example of every CLI linter under position-only layouts (as is, shifted down, wrapped "
                 "in a block, CRLF, no final newline); generated file headers and file-level cases (empty files); each file is linted with "
                 "every rule (in-process Orchestrator; a fraction through the CLI as JSON and SARIF) and every reported violation is judged in "
                 "Coq against the property and the builder model; a case is non-trivial when it yields at least one judged violation; distinct = "
@@ -1086,8 +1279,8 @@ def run(tier: str, seed: int, replay: str | None = None) -> int:
     load_known_d(chk)
     scale = chk.budget_scale()
     q = 1 if tier == "quick" else 10
-    counts = {"nesting": 60 * q, "magic": 45 * q, "srp": 45 * q, "rust": 60 * q, "rustchain": 30 * q, "rustmulti": 12 * q, "dry": 16 * q, "print": 40 * q, "header": 14 * q, "filelevel": 10 * q}
-    gens = {"nesting": s_nesting, "magic": s_magic, "srp": s_srp, "rust": s_rust, "rustchain": s_rustchain, "rustmulti": s_rustmulti, "dry": s_dry, "print": s_print, "header": s_header, "filelevel": s_filelevel}
+    counts = {"nesting": 60 * q, "magic": 45 * q, "srp": 45 * q, "rust": 60 * q, "rustchain": 30 * q, "rustmulti": 12 * q, "dryconst": 24 * q, "history": 8 * q, "dry": 16 * q, "print": 40 * q, "header": 14 * q, "filelevel": 10 * q}
+    gens = {"nesting": s_nesting, "magic": s_magic, "srp": s_srp, "rust": s_rust, "rustchain": s_rustchain, "rustmulti": s_rustmulti, "dryconst": s_dryconst, "history": s_history, "dry": s_dry, "print": s_print, "header": s_header, "filelevel": s_filelevel}
     if replay:
         cases = [json.loads(Path(replay).read_text())["violation"]["case"]]
         ext = {"unparsable": [], "unknown_docs": []}
@@ -1101,9 +1294,9 @@ def run(tier: str, seed: int, replay: str | None = None) -> int:
                     chk.notes.append(f"generator {name} #{i} failed: {type(e).__name__}: {e}")
                     chk.broken.append(f"Model:generator {name} raised {type(e).__name__}: {str(e)[:200]}")
                     break
-        variants = ["base", "vshift", "wrap", "crlf", "nonl"]
+        variants = ["base", "vshift", "wrap", "crlf", "nonl", "exotic"]
         if tier != "quick":
-            variants += ["vshift+crlf", "wrap+vshift", "wrap+nonl", "vshift+nonl", "wrap+crlf", "vshift+vshift"]
+            variants += ["exotic+crlf", "wrap+exotic", "vshift+crlf", "wrap+vshift", "wrap+nonl", "vshift+nonl", "wrap+crlf", "vshift+vshift"]
         dcs, ext = docs_cases(seed, variants)
         cases += dcs
         if ext["unknown_docs"]:
@@ -1152,7 +1345,8 @@ def run(tier: str, seed: int, replay: str | None = None) -> int:
                     cn = ("", "", [], [])
                 b, key, quoted, hdrs = cn
                 recorded = b in builders_recorded and doc["stream"] != "docs"
-                reps.append({"rule": rule, "msg": msg, "builder": b, "key": key if recorded or b.startswith("file-header") else "", "line": line, "col": col,
+                sl = im["texts"][rel].splitlines()
+                reps.append({"rule": rule, "msg": msg, "sl_text": (sl[line - 1] if 1 <= line <= len(sl) else None), "sl_differs": len(sl) != len(lines), "builder": b, "key": key if recorded or b.startswith("file-header") else "", "line": line, "col": col,
                              "quoted": quoted, "hdrs": hdrs, "recorded": recorded})
             if reps:
                 jobs.append((ci, rel, lines, doc["cons"], reps))
@@ -1327,8 +1521,13 @@ def check_cli_views(chk, case, im):
         chk.violation({"reason": "SARIF regions are not (line, column + 1) of the JSON violations", "json": js[:5], "sarif": sf[:5], "case": slim(case)})
 
 
+def _slim_doc(d):
+    return {k: d[k] for k in ("lang", "name", "lines", "cons", "eol", "final_nl", "stream", "tags") if k in d} | ({"raw": d["raw"]} if "raw" in d else {})
+
+
 def slim(case):
     return {"id": case["id"], "stream": case["stream"], "config": case["config"], "via": case.get("via", "api"), "cmd": case.get("cmd"),
+            **({"steps": [[_slim_doc(d) for d in st] for st in case["steps"]]} if case.get("steps") else {}),
             "docs": [{k: d[k] for k in ("lang", "name", "lines", "cons", "eol", "final_nl", "stream", "tags") if k in d} | ({"raw": d["raw"]} if "raw" in d else {})
                      for d in case["docs"]]}
 
